@@ -15,7 +15,7 @@
 (* deliberately calls on a whole grid and leaves the domain decision to this module.                    *)
 EXTENDS Integers, Sequences, FiniteSets, BitsIM
 
-W == INSTANCE WideIM WITH WB <- 32768
+W == INSTANCE WideIM WITH WB <- 32768, LB <- 15
 
 \* ---- arithmetic on TLC integers (types of at most 16 bits: no intermediate exceeds 2^17) ----------
 IMin(w, s) == IF s = 1 THEN 0 - 2^(w - 1) ELSE 0
@@ -23,6 +23,13 @@ IMax(w, s) == IF s = 1 THEN 2^(w - 1) - 1 ELSE 2^w - 1
 IFits(x, w, s) == IMin(w, s) <= x /\ x <= IMax(w, s)
 IClamp(x, w, s) == IF x < IMin(w, s) THEN IMin(w, s) ELSE IF x > IMax(w, s) THEN IMax(w, s) ELSE x
 IAbs(x) == IF x < 0 THEN 0 - x ELSE x
+\* the same for a value |x| < 2^31 against a type that may be 32/64 bits wide (whose limits TLC cannot hold)
+IFitsW(x, w, s) == IF w <= 16 THEN IFits(x, w, s) ELSE (s = 1 \/ x >= 0)
+IClampW(x, w, s) == IF w <= 16 THEN IClamp(x, w, s) ELSE IF s = 0 /\ x < 0 THEN 0 ELSE x
+\* two's complement limbs (16 bits each, little-endian) of an integer |v| < 2^31 in a type of w >= 32 bits
+LimbsOfInt(v, w) == [k \in 1..(w \div 16) |-> IF k = 1 THEN v % 65536
+                                              ELSE IF k = 2 THEN (v \div 65536) % 65536
+                                              ELSE IF v < 0 THEN 65535 ELSE 0]
 \* the C++ operators / and %
 IQuot(x, y) == LET q == IAbs(x) \div IAbs(y) IN IF (x < 0) # (y < 0) THEN 0 - q ELSE q
 IRem(x, y) == LET r == IAbs(x) % IAbs(y) IN IF x < 0 THEN 0 - r ELSE r
@@ -64,14 +71,17 @@ Small(w) == w <= 16
 ValOK(x, w, s) == IF Small(w) THEN IFits(x, w, s) ELSE LimbsOK(x, w)
 Word(x, w) == IF Small(w) THEN BitsOfNat(PatOf(x, w), w) ELSE BitsOfLimbs(x, w)
 Unword(b, s) == IF Small(Len(b)) THEN ValOf(NatOfBits(b), Len(b), s) ELSE LimbsOfBits(b)
-ZVal(x, w, s) == IF Small(w) THEN W!ZOfInt(x) ELSE W!ZOfBits(BitsOfLimbs(x, w), s)
+ZVal(x, w, s) == IF Small(w) THEN W!ZOfInt(x) ELSE W!ZOfLimbs16(x, w, s)
 
 Has(ev, f) == f \in DOMAIN ev
 Widths(ev) == {ev.w} \cup (IF Has(ev, "w2") THEN {ev.w2} ELSE {}) \cup (IF Has(ev, "rw") THEN {ev.rw} ELSE {})
-SmallEv(ev) == \A w \in Widths(ev) : Small(w)
 \* type of the result: same as the argument unless the event names one
 RW(ev) == IF Has(ev, "rw") THEN ev.rw ELSE ev.w
 RS(ev) == IF Has(ev, "rs") THEN ev.rs ELSE ev.s
+\* TLC integers suffice when every argument type is at most 16 bits wide (a wider result type only receives a
+\* value below 2^31) - except lcm of 16-bit arguments in a wider type, whose value may exceed 2^31
+SmallEv(ev) == /\ Small(ev.w) /\ (Has(ev, "w2") => Small(ev.w2))
+               /\ (ev.op = "lcm" /\ ~Small(RW(ev)) => ev.w = 8 /\ ev.w2 = 8)
 
 BitOps == {"bits", "bswap", "rot", "bitpos", "hton", "ilog2"}
 ArithOps == {"add_sat", "div_sat", "midpoint", "gcd", "lcm", "abs", "idiv", "ipow", "sat_cast", "in_range", "cmp"}
@@ -84,6 +94,7 @@ WellFormed(ev) ==
     /\ (Has(ev, "w2") => ev.w2 \in {8, 16, 32, 64} /\ ev.s2 \in {0, 1})
     /\ (Has(ev, "rw") => ev.rw \in {8, 16, 32, 64} /\ ev.rs \in {0, 1})
     /\ (Has(ev, "y") => IF Has(ev, "w2") THEN ValOK(ev.y, ev.w2, ev.s2) ELSE ValOK(ev.y, ev.w, ev.s))
+    /\ (ev.op \in ArithOps \ {"in_range", "cmp", "idiv"} => ValOK(ev.ret, RW(ev), RS(ev)))
     /\ (ev.op \in {"bits", "rot", "bitpos"} => ev.s = 0)
     /\ (ev.op = "rot" => ev.n \in -100000..100000)
     /\ (ev.op = "bitpos" => ev.p \in 0..(ev.w - 1))
@@ -98,14 +109,15 @@ ExpI(ev) ==
     CASE ev.op = "add_sat" -> In(AddSatI(x, ev.y, w, s))
       [] ev.op = "div_sat" -> IF ev.y = 0 THEN Out ELSE In(DivSatI(x, ev.y, w, s))
       [] ev.op = "midpoint" -> In(MidpointI(x, ev.y))
-      [] ev.op = "gcd" -> IF IFits(IAbs(x), rw, rs) /\ IFits(IAbs(ev.y), rw, rs) THEN In(GcdI(x, ev.y)) ELSE Out
-      [] ev.op = "lcm" -> IF IFits(IAbs(x), rw, rs) /\ IFits(IAbs(ev.y), rw, rs) /\ LcmI(x, ev.y, rw, rs).ok
+      [] ev.op = "gcd" -> IF IFitsW(IAbs(x), rw, rs) /\ IFitsW(IAbs(ev.y), rw, rs) THEN In(GcdI(x, ev.y)) ELSE Out
+      [] ev.op = "lcm" -> IF ~Small(rw) THEN In(LcmI(x, ev.y, 16, 0).v)         \* 8-bit arguments: at most 255 * 255
+                          ELSE IF IFits(IAbs(x), rw, rs) /\ IFits(IAbs(ev.y), rw, rs) /\ LcmI(x, ev.y, rw, rs).ok
                           THEN In(LcmI(x, ev.y, rw, rs).v) ELSE Out
       [] ev.op = "abs" -> IF IFits(IAbs(x), w, s) THEN In(IAbs(x)) ELSE Out
       [] ev.op = "idiv" -> IF ev.y # 0 /\ IFits(IQuot(x, ev.y), w, s) THEN In(<<IQuot(x, ev.y), IRem(x, ev.y)>>) ELSE Out
       [] ev.op = "ipow" -> IF ev.y >= 0 /\ IPowI(x, ev.y, w, s).ok THEN In(IPowI(x, ev.y, w, s).v) ELSE Out
-      [] ev.op = "sat_cast" -> In(SatCastI(x, rw, rs))
-      [] ev.op = "in_range" -> In(IFits(x, rw, rs))
+      [] ev.op = "sat_cast" -> In(IClampW(x, rw, rs))
+      [] ev.op = "in_range" -> In(IFitsW(x, rw, rs))
       [] ev.op = "cmp" -> LET y == ev.y IN In(<<x = y, x # y, x < y, x <= y, x > y, x >= y>>)
 
 \* some type wider than 16 bits: limb integers
@@ -129,6 +141,8 @@ ExpZ(ev) ==
 
 \* the logged result in the same representation
 RetI(ev) == ev.ret
+\* the expected value of the TLC-integer route in the representation of the result type
+ReprI(ev, v) == IF ev.op \in {"in_range", "cmp", "idiv"} \/ Small(RW(ev)) THEN v ELSE LimbsOfInt(v, RW(ev))
 RetZ(ev) == CASE ev.op \in {"in_range", "cmp"} -> ev.ret
               [] ev.op = "idiv" -> <<ZVal(ev.ret[1], ev.w, ev.s), ZVal(ev.ret[2], ev.w, ev.s)>>
               [] OTHER -> ZVal(ev.ret, RW(ev), RS(ev))
@@ -137,7 +151,7 @@ ArithBad(ev) ==
     LET e == IF SmallEv(ev) THEN ExpI(ev) ELSE ExpZ(ev) IN
     IF ~e.dom THEN ""
     ELSE IF Has(ev, "trap") THEN "+trap"
-    ELSE IF (IF SmallEv(ev) THEN RetI(ev) ELSE RetZ(ev)) = e.v THEN "" ELSE "+" \o ev.op
+    ELSE IF (IF SmallEv(ev) THEN RetI(ev) = ReprI(ev, e.v) ELSE RetZ(ev) = e.v) THEN "" ELSE "+" \o ev.op
 
 \* ---- bit functions ---------------------------------------------------------------------------------
 Chk(name, ok) == IF ok THEN "" ELSE "+" \o name
